@@ -240,25 +240,20 @@ func returnsNilFirst(s ast.Stmt) bool { // `return nil` or `return "", err` / `r
 }
 
 // extractLogic returns Lean definitions (namespace KV.Gen) for the decision logic listed at the top.
-func extractLogic(repo string) (string, error) {
-	fset := token.NewFileSet()
-	ef, err := parser.ParseFile(fset, filepath.Join(repo, "error.go"), nil, 0)
-	if err != nil {
-		return "", err
-	}
-	wf, err := parser.ParseFile(fset, filepath.Join(repo, "writer.go"), nil, 0)
-	if err != nil {
-		return "", err
-	}
+func piece_makeErrorNil(ef, wf *ast.File) (string, error) {
 	var sb strings.Builder
-
+	var fd *ast.FuncDecl
+	var sc *scope
+	var err error
+	done := false
+	_, _, _, _ = fd, sc, err, done
 	// ---- makeError: the condition guarding the first `return nil`
-	fd := findFunc(ef, "", "makeError")
+	fd = findFunc(ef, "", "makeError")
 	if fd == nil {
 		return "", fmt.Errorf("error.go: makeError not found")
 	}
-	sc := newScope(fd, map[string]string{"p0": "code"})
-	done := false
+	sc = newScope(fd, map[string]string{"p0": "code"})
+	done = false
 	for _, st := range fd.Body.List {
 		if is, ok := st.(*ast.IfStmt); ok && len(is.Body.List) == 1 && returnsNilFirst(is.Body.List[0]) {
 			c, err := sc.boolean(is.Cond, false)
@@ -275,6 +270,16 @@ func extractLogic(repo string) (string, error) {
 		return "", fmt.Errorf("makeError: no `if … { return nil }` found")
 	}
 
+	return sb.String(), nil
+}
+
+func piece_chooseTopic(ef, wf *ast.File) (string, error) {
+	var sb strings.Builder
+	var fd *ast.FuncDecl
+	var sc *scope
+	var err error
+	done := false
+	_, _, _, _ = fd, sc, err, done
 	// ---- chooseTopic: if / else-if chain of error returns, then `if c { return X, nil }`, then `return Y, nil`
 	fd = findFunc(wf, "Writer", "chooseTopic")
 	if fd == nil {
@@ -353,6 +358,16 @@ func extractLogic(repo string) (string, error) {
 	sb.WriteString("/-- writer.go (*Writer).chooseTopic: w = Writer.Topic, m = Message.Topic; none = an error is returned -/\n")
 	sb.WriteString("def chooseTopic (w m : String) : Option String :=\n  " + strings.Join(chain, "\n  ") + "\n\n")
 
+	return sb.String(), nil
+}
+
+func piece_batchFull(ef, wf *ast.File) (string, error) {
+	var sb strings.Builder
+	var fd *ast.FuncDecl
+	var sc *scope
+	var err error
+	done := false
+	_, _, _, _ = fd, sc, err, done
 	// ---- (*writeBatch).full
 	fd = findFunc(wf, "writeBatch", "full")
 	if fd == nil || len(fd.Body.List) != 1 {
@@ -370,6 +385,16 @@ func extractLogic(repo string) (string, error) {
 	sb.WriteString("/-- writer.go (*writeBatch).full -/\n")
 	sb.WriteString("def batchFull (size bytes maxSize maxBytes : Nat) : Bool := " + c + "\n\n")
 
+	return sb.String(), nil
+}
+
+func piece_batchNoFit(ef, wf *ast.File) (string, error) {
+	var sb strings.Builder
+	var fd *ast.FuncDecl
+	var sc *scope
+	var err error
+	done := false
+	_, _, _, _ = fd, sc, err, done
 	// ---- (*writeBatch).add: the condition guarding `return false`
 	fd = findFunc(wf, "writeBatch", "add")
 	if fd == nil {
@@ -393,6 +418,16 @@ func extractLogic(repo string) (string, error) {
 		return "", fmt.Errorf("add: no `if … { return false }` found")
 	}
 
+	return sb.String(), nil
+}
+
+func piece_tooLarge(ef, wf *ast.File) (string, error) {
+	var sb strings.Builder
+	var fd *ast.FuncDecl
+	var sc *scope
+	var err error
+	done := false
+	_, _, _, _ = fd, sc, err, done
 	// ---- WriteMessages: the condition guarding `return messageTooLarge(…)`
 	fd = findFunc(wf, "Writer", "WriteMessages")
 	if fd == nil {
@@ -433,4 +468,41 @@ func extractLogic(repo string) (string, error) {
 		return "", fmt.Errorf("WriteMessages: no `if … { return messageTooLarge(…) }` found")
 	}
 	return sb.String(), nil
+}
+
+func extractLogic(repo string) (string, []string, error) {
+	fset := token.NewFileSet()
+	ef, err := parser.ParseFile(fset, filepath.Join(repo, "error.go"), nil, 0)
+	if err != nil {
+		return "", nil, err
+	}
+	wf, err := parser.ParseFile(fset, filepath.Join(repo, "writer.go"), nil, 0)
+	if err != nil {
+		return "", nil, err
+	}
+	type piece struct {
+		name, fallback string
+		f              func(ef, wf *ast.File) (string, error)
+	}
+	pieces := []piece{
+		{"makeErrorNil", "def makeErrorNil (code : Int) : Bool := untranslated code", piece_makeErrorNil},
+		{"chooseTopic", "def chooseTopic (w m : String) : Option String := if untranslated (w, m) then none else none", piece_chooseTopic},
+		{"batchFull", "def batchFull (size bytes maxSize maxBytes : Nat) : Bool := untranslated (size, bytes, maxSize, maxBytes)", piece_batchFull},
+		{"batchNoFit", "def batchNoFit (size bytes msz maxBytes : Nat) : Bool := untranslated (size, bytes, msz, maxBytes)", piece_batchNoFit},
+		{"tooLarge", "def tooLarge (msz batchBytes : Nat) : Bool := untranslated (msz, batchBytes)", piece_tooLarge},
+	}
+	var sb strings.Builder
+	var failed []string
+	for _, p := range pieces {
+		out, err := p.f(ef, wf)
+		if err != nil {
+			// keep everything else usable: the piece gets an opaque definition, so the theorem stated over it fails and
+			// names the reason, while the oracle (which does not depend on it) still builds and the search still runs
+			failed = append(failed, p.name+": "+err.Error())
+			sb.WriteString("/-- NOT TRANSLATED: " + strings.ReplaceAll(err.Error(), "-/", "- /") + " -/\n" + p.fallback + "\n\n")
+			continue
+		}
+		sb.WriteString(out)
+	}
+	return sb.String(), failed, nil
 }
